@@ -15,7 +15,7 @@ EXPLANATION = (
     "client sends STOP_SENDING(H3_REQUEST_CANCELLED) for responses and trailers. The arithmetic inside len() is trusted.")
 # every anchor of these rules lives in the h3 crate: thorough tier repeats them on the feature-less build
 EXTRA_CONFIGS = ["h3-plain"]
-RULES = "C10-a size accounting (A4/A6); C10-b comparisons and limit provenance (A5/A4/A2); C10-c defaults and local-limit flow (A4/A11); C10-d outcomes (A3); shared through a proxy: C13-d under C10-c; C13-a (receive mapping) under C10-c"
+RULES = "C10-a size accounting (A4/A6); C10-b comparisons and limit provenance (A5/A4/A2), control stream processed before a request is handed out (A2); C10-c defaults and local-limit flow (A4/A11); C10-d outcomes (A3); shared through a proxy: C13-d under C10-c; C13-a (receive mapping) under C10-c"
 
 Q = "h3::qpack::"
 WRITE = "h3::stream::write"
@@ -266,6 +266,19 @@ def run(ctx):
         ps = [p for p in ru.all_paths(ctx, "C10-d", tr, max_visits=1) if p.end == "return" and p.ret_shape() == "Ready(Err(StreamError::HeaderTooBig))"]
         ctx.check(bool(ps) and all(not p.has_call("handle_connection_error_on_stream") for p in ps), "C10-d", tr.key, "oversized trailers are not connection-fatal",
                   "HeaderTooBig trailers raise a connection error", "")
+    # the limit a response is checked against is the peer's SETTINGS: what the control stream has delivered is processed BEFORE a
+    # request is handed to the application (SETTINGS and the first request that arrive together: the response must already see the limit)
+    sac = ru.need(ctx, "C10-b", "h3::server::connection::Connection::poll_accept_request_stream_internal")
+    if sac:
+        served = [p for p in ru.all_paths(ctx, "C10-b", sac, max_visits=1) if p.end == "return" and p.ret_shape().startswith("Ready(Ok(Some(")]
+        ctx.floor("C10-b", "paths handing a request stream to the application", len(served), 1)
+        for p in served:
+            names = [e[2].cname for e in p.calls("h3::server::connection::Connection::poll_control", "h3::connection::ConnectionInner::poll_accept_bi")]
+            ok = "poll_control" in names and "poll_accept_bi" in names and names.index("poll_control") < len(names) - 1 - names[::-1].index("poll_accept_bi")
+            ctx.check(ok, "C10-b", sac.key, "control stream processed before a request is handed out",
+                      "poll_accept_request_stream_internal returns a request stream on a path that had not processed the control stream first "
+                      "(calls: %s): SETTINGS that arrived together with the request are not applied yet, and the response is checked against the "
+                      "default (unlimited) field-section size instead of the peer's" % names, "", None, p.describe())
     ctx.assume("Vec/Cow len() report the byte lengths of name and value")
     # the peer's limit is whatever its SETTINGS frame said - every supported identifier is stored, whatever its value (C13-d)
     if not getattr(ctx, "nested", False):
